@@ -404,6 +404,30 @@ func firstLoadOfField(fn *ssa.Function, field string) *ssa.BasicBlock {
 	return nil
 }
 
+// firstReadOfField: like firstLoadOfField, and a call of an accessor of the same package (a function
+// that reads the field and calls nothing through a function value) counts as the read.
+func (c *Ctx) firstReadOfField(fn *ssa.Function, field string) *ssa.BasicBlock {
+	for _, b := range fn.Blocks {
+		for _, in := range b.Instrs {
+			if fa, ok := in.(*ssa.FieldAddr); ok {
+				if st, ok := deref(fa.X.Type()).Underlying().(*types.Struct); ok && st.Field(fa.Field).Name() == field {
+					return b
+				}
+			}
+			if ci, ok := in.(ssa.CallInstruction); ok {
+				g := ci.Common().StaticCallee()
+				if g == nil || g.Parent() != nil || len(g.Blocks) == 0 || core.FnPkg(g) == nil || core.FnPkg(fn) == nil || core.FnPkg(g).Pkg != core.FnPkg(fn).Pkg {
+					continue
+				}
+				if len(dynamicCallsWithClosures(g)) == 0 && firstLoadOfField(g, field) != nil {
+					return b
+				}
+			}
+		}
+	}
+	return nil
+}
+
 // DispatchOrder: handlePacket runs generic handlers before id-specific ones
 // and stops at the first error.
 func (c *Ctx) DispatchOrder() []core.Ob {
@@ -441,7 +465,7 @@ func (c *Ctx) DispatchOrder() []core.Ob {
 		if !inPkgs(f, "bot") || generic == "" || specific == "" {
 			continue
 		}
-		if firstLoadOfField(f, generic) == nil || firstLoadOfField(f, specific) == nil {
+		if c.firstReadOfField(f, generic) == nil || c.firstReadOfField(f, specific) == nil {
 			continue
 		}
 		if f.Parent() != nil {
@@ -458,7 +482,7 @@ func (c *Ctx) DispatchOrder() []core.Ob {
 		return []core.Ob{o}
 	}
 	o := c.ordOb("dispatch-order:generic-before-specific", "the loop over generic handlers completes before the loop over id-specific handlers starts", fn)
-	g, h := firstLoadOfField(fn, generic), firstLoadOfField(fn, specific)
+	g, h := c.firstReadOfField(fn, generic), c.firstReadOfField(fn, specific)
 	switch {
 	case g == nil || h == nil:
 		o.Status, o.Got = core.Violated, "handler tables not both read in the dispatcher"
@@ -1646,6 +1670,13 @@ func (c *Ctx) RegionOrigin() []core.Ob {
 		case *ssa.Const:
 			// a constant (0 on an error return of a helper) positions nothing by itself
 		default:
+			// a field of a local struct (a run of sectors put together on the spot): what was stored into it
+			if vals, ok := localFieldStores(v); ok {
+				for _, sv := range vals {
+					walk(sv, fr)
+				}
+				return
+			}
 			leaves = append(leaves, leaf{v, fr})
 		}
 	}
